@@ -252,6 +252,8 @@ struct Model {
     /// Numbers used in hostile frames while the peer knew no port of A with that number
     /// (A may have had one already: its PortOpened / OpenPort can be in flight).
     hostile_numbers: Vec<u32>,
+    /// Port numbers named by any frame on the wire that reads as SendFinish.
+    finish_numbers: Vec<u32>,
     /// Size of A's port-number space (0 = all of u32).
     a_port_space: u32,
     credits_from_a: u64,
@@ -355,6 +357,10 @@ impl Script {
             return false;
         }
         // (Lenient like the real decoder, which ignores trailing bytes.)
+        if !self.expect_payload && data.len() >= 5 && data[0] == 10 {
+            // Whatever produced it (script, mutation, replay): this reads as SendFinish for that port.
+            self.m.finish_numbers.push(u32::from_le_bytes(data[1..5].try_into().unwrap()));
+        }
         self.expect_payload = !self.expect_payload && data.len() >= 6 && data[0] == 7;
         self.m.sent_log.push(data.clone());
         // A may have stopped reading (e.g. after Goodbye) while the link is full: never wait forever.
@@ -561,6 +567,26 @@ impl Script {
     }
 
     async fn hostile_step(&mut self) {
+        self.hostile_step_inner().await;
+        // Whatever was sent last may read as a Data header (replays, mutations, garbage): give it a
+        // payload at once, so that the byte stream and the peer's model stay in step.
+        if self.expect_payload && !self.peer.closed && !self.send_dead {
+            let hdr = self.m.sent_log.last().cloned().unwrap_or_default();
+            let port = u32::from_le_bytes(hdr.get(1..5).and_then(|b| b.try_into().ok()).unwrap_or([0xff; 4]));
+            let payload = vec![0xEE; kit::pick(&[0usize, 1, 3])];
+            let cost = (payload.len() as i64).max(1);
+            self.m.hostile_numbers.push(port);
+            if self.raw(payload).await
+                && let Some(i) = self.m.ports.iter().rposition(|p| p.a_port == port)
+            {
+                self.taint(i);
+                self.m.ports[i].credit_left -= cost;
+                self.marks.push((self.ctl.sent(1), i, cost as u64));
+            }
+        }
+    }
+
+    async fn hostile_step_inner(&mut self) {
         let kind = kit::draw(17);
         match kind {
             0 => {
@@ -1107,6 +1133,7 @@ async fn run(hostile_permille: u32) {
             must_terminate: None,
             uncertain: false,
             hostile_numbers: Vec::new(),
+            finish_numbers: Vec::new(),
             a_port_space: port_space,
             credits_from_a: 0,
         },
@@ -1412,7 +1439,7 @@ async fn run(hostile_permille: u32) {
     {
         let bk = book.lock().unwrap();
         for b in &bk.ports {
-            let peer_finished = s.m.ports.iter().any(|p| p.a_port == b.a_port && p.p_port == b.p_port && p.sent_finish);
+            let peer_finished = s.m.ports.iter().any(|p| p.a_port == b.a_port && p.p_port == b.p_port && p.sent_finish) || s.m.finish_numbers.contains(&b.a_port);
             let tainted = s.m.ports.iter().any(|p| p.a_port == b.a_port && p.tainted) || s.m.hostile_count > 0 && !s.m.ports.iter().any(|p| p.a_port == b.a_port && p.p_port == b.p_port);
             if b.recv_end == Some("end") && !peer_finished && !tainted {
                 viol(
